@@ -266,7 +266,9 @@ ChkCmdRet(h, g, e) ==
       sv == c.pre
       dk == c.kind \in DeployKinds
       begun == {u \in c.targets : g.tg[u].nbeg > 0}
-      lateOk == {u \in c.targets : g.tg[u].okSeq = 0 \/ g.tg[u].okT > c.callT + c.dto}
+      \* (the deadline is compared only under the urgency rule: otherwise the goroutine that arms the
+      \*  deploy timer may itself have been held back for an arbitrary time)
+      lateOk == {u \in c.targets : g.tg[u].okSeq = 0 \/ (h.urgent /\ g.tg[u].okT > c.callT + c.dto)}
       served == {r \in DOMAIN g.rq : g.rq[r].beg # 0 /\ g.rq[r].tg \in c.prev}
       bound == MaxOf({Min(NatEnd(g.rq[r], c.s), c.s + c.drto) : r \in served} \cup {c.s}, c.s)
   IN  If(dk /\ c.res = "ok" /\ lateOk # {},
